@@ -46,7 +46,7 @@ def gen_plan(r, index, tier):
     if kind == 'bio':
         steps = common.gen_bio_schedule(r, total, faults)
     else:
-        steps = W.gen_schedule(r, total, points, max_steps=r.choice([8, 24, 64]), faults=faults)
+        steps = W.gen_schedule(r, total, points, max_steps=r.choice([8, 24, 64]), faults=faults, idle=True)
         delivered = sum(s[2] for s in steps if s[0] == 'deliver')
         if delivered == total and r.random() < 0.5:
             # end-of-stream signalled together with the last byte
@@ -287,7 +287,16 @@ def _execute_one(plan, wl=None):
         try:
             for idx, step in enumerate(plan['steps']):
                 op = step[0]
-                if op == 'poll':
+                if op == 'idle':
+                    ctr['fault.idle_polls'] = ctr.get('fault.idle_polls', 0) + step[2]
+                    for _ in range(step[2]):
+                        if state['stopped']:
+                            break
+                        st.arm('would_block', None)
+                        _poll(cons, st, state, ref, n, idx, ctr, wl, drained=False)
+                    st.disarm()
+                    trace.append(list(step))
+                elif op == 'poll':
                     if state['stopped']:
                         continue
                     _poll(cons, st, state, ref, n, idx, ctr, wl, drained=False)
@@ -343,7 +352,7 @@ def _poll(cons, st, state, ref, n, idx, ctr, wl, drained):
                               got=U.safe_repr(U.jsonable(a)), want=U.safe_repr(U.jsonable(ref[state['got']])))
         state['got'] += 1
     elif kind in (W.NONE, W.OTHER):
-        raise W.Violation('I3-non-object-yielded', step=idx, what=repr(payload)[:80],
+        raise W.Violation('I3-non-object-yielded', step=idx, what=U.safe_repr(payload, 80),
                           delivered=st.d, total=len(st.s), closed=state['closed'])
     elif kind == W.STOP:
         state['stopped'] = True
